@@ -101,11 +101,17 @@ class Explorer:
     return r
 
   def branch(self, cond, aux=None):
+    sk = _sign_knowledge(cond)          # on the raw term: simplify may push factors into If-terms
+    if sk is not None:
+      return sk
     cond = z3.simplify(cond)
     if z3.is_true(cond):
       return True
     if z3.is_false(cond):
       return False
+    sk = _sign_knowledge(cond)
+    if sk is not None:
+      return sk
     # a literal already decided on this path needs neither a fork nor a solver query
     cid = cond.get_id()
     if cid in self.known:
@@ -229,6 +235,32 @@ class Explorer:
     finally:
       EX = prev
     return results
+
+
+def _sign_knowledge(cond):
+  """decides  t < 0 / t >= 0 / 0 <= t / 0 > t (and their negations) when t is syntactically non-negative"""
+  neg = False
+  c = cond
+  if z3.is_not(c):
+    neg, c = True, c.arg(0)
+  if not z3.is_app(c) or c.num_args() != 2:
+    return None
+  k = c.decl().kind()
+  a, b = c.arg(0), c.arg(1)
+  res = None
+  if _num_value(b) == 0:
+    if k == z3.Z3_OP_GE and syntactically_nonneg(a):
+      res = True
+    elif k == z3.Z3_OP_LT and syntactically_nonneg(a):
+      res = False
+  elif _num_value(a) == 0:
+    if k == z3.Z3_OP_LE and syntactically_nonneg(b):
+      res = True
+    elif k == z3.Z3_OP_GT and syntactically_nonneg(b):
+      res = False
+  if res is None:
+    return None
+  return (not res) if neg else res
 
 
 class Path:
@@ -509,7 +541,9 @@ class Sym:
   def __pos__(self): return self
 
   def __abs__(self):
-    return Sym(z3.If(self.t >= 0, self.t, -self.t))
+    r = z3.If(self.t >= 0, self.t, -self.t)
+    mark_nonneg(r)
+    return Sym(r)
 
   def __pow__(self, o):
     if isinstance(o, (int, np.integer)) or (isinstance(o, (float, np.floating)) and float(o).is_integer()):
@@ -672,10 +706,18 @@ def _memo(kind, t, make):
   return e.cache[key][1]
 
 
+def mark_nonneg(t):
+  if EX is not None and EX.active:
+    EX.cache[('nonneg', t.get_id())] = (t, True)
+
+
 def syntactically_nonneg(t, depth=0):
-  """Cheap sufficient test for t >= 0 (sums/products of squares, sqrt/exp atoms, numerals)."""
+  """Cheap sufficient test for t >= 0 (sums/products of squares, sqrt/exp atoms, numerals, terms
+  registered as |x| or max(c>=0, x) on this path)."""
   if depth > 12:
     return False
+  if EX is not None and EX.active and ('nonneg', t.get_id()) in EX.cache:
+    return True
   v = _num_value(t)
   if v is not None:
     return v >= 0
@@ -859,7 +901,10 @@ def sym_max(a, b):
         return PINF
     return b if is_inf(a) else a
   ta, tb = _coerce(term_of(a), term_of(b))
-  return Sym(z3.If(ta >= tb, ta, tb))
+  r = z3.If(ta >= tb, ta, tb)
+  if (_concrete(a) and a >= 0) or (_concrete(b) and b >= 0) or syntactically_nonneg(ta) or syntactically_nonneg(tb):
+    mark_nonneg(r)
+  return Sym(r)
 
 
 def sym_min(a, b):
